@@ -95,13 +95,20 @@ fn case_bytes<F: Family>(input: &Input, ctx: &mut Ctx) -> CaseResult {
     agree::<F>(input.bytes(), "given", ctx)
 }
 
+fn case_history<F: Family>(input: &Input, ctx: &mut Ctx) -> CaseResult {
+    // a valid packet is decoded first, then a frame that reuses one of its strings in another role
+    crate::checks::c04::history_core::<F>(input, ctx, 2)
+}
+
+pub const SUB_H3: Sub = Sub { name: "c06.history.v3", f: case_history::<V3> };
+pub const SUB_H5: Sub = Sub { name: "c06.history.v5", f: case_history::<V5> };
 pub const SUB_V3: Sub = Sub { name: "c06.agree.v3", f: case::<V3> };
 pub const SUB_V5: Sub = Sub { name: "c06.agree.v5", f: case::<V5> };
 pub const SUB_B3: Sub = Sub { name: "c06.bytes.v3", f: case_bytes::<V3> };
 pub const SUB_B5: Sub = Sub { name: "c06.bytes.v5", f: case_bytes::<V5> };
 
 pub fn subs() -> Vec<Sub> {
-    vec![SUB_V3, SUB_V5, SUB_B3, SUB_B5]
+    vec![SUB_V3, SUB_V5, SUB_B3, SUB_B5, SUB_H3, SUB_H5]
 }
 
 pub fn run(env: &mut Env) -> RunResult {
@@ -118,6 +125,9 @@ pub fn run(env: &mut Env) -> RunResult {
     let n = env.tier.sel(40_000, 600_000);
     env.run_tapes(SUB_V3, n, 200)?;
     env.run_tapes(SUB_V5, n * 2, 300)?;
+    env.run_tapes(SUB_H3, n / 4, 300)?;
+    env.run_tapes(SUB_H5, n / 2, 400)?;
+    env.require("c06.history.v5", "history:into-response-topic:reject");
     for s in ["c06.agree.v3", "c06.agree.v5"] {
         for l in ["poll-accept:CONNECT", "poll-accept:PUBLISH", "poll-accept:SUBSCRIBE", "poll-reject:InvalidRemainingLength(exempt)", "poll-reject:InvalidHeader", "poll-reject:InvalidString", "poll-reject:ZeroPid", "no-complete-frame"] {
             env.require(s, l);
